@@ -1,5 +1,6 @@
 import ScriggoV.Model.Scopes
 import ScriggoV.Model.EnvPool
+import ScriggoV.Model.ImporterPolicy
 /-! Line protocol of C19 (model: `Model/Scopes.lean`).
 
 `check <template 0|1> <allowGo 0|1> <importer> <failing> <globals> <ops>`
@@ -12,6 +13,17 @@ import ScriggoV.Model.EnvPool
   kind     := builtin | type | const | var | func | nil | iota | pkg
 answers `ok natives=<prov:name,…|->` (`G:` global, `I<path>:` importer; in order of first
 resolution) or `err <error>`.
+
+`checkt <template 0|1> <allowGo 0|1> <k> <pkg>… <tree> <globals> <ops>` (model: `Model/ImporterPolicy.lean`
+under the stop rule regenerated from CombinedImporter.Import, `ImporterPolicy.codeRule`)
+  pkg    := `<name> <m> <decl>…`                      (the package values, numbered from 0)
+  tree   := `N` (nil importer) | node
+  node   := `P <n> (<path> <pkg index | -1 = nil stored>)…`        native.Packages
+          | `U <id> <n> (<path> <answer>)…`                          an importer of the embedder's own
+          | `C <n> <node>…`                                          native.CombinedImporter
+  answer := `n` | `p <pkg index>` | `e <errno>` | `b <pkg index> <errno>`
+answers as `check` does, followed by ` imports=<path>:<answer>,…|-` for the paths the ops import
+(the importer's answer: `n`, `p<index>`, `e<errno>`, `b<index>.<errno>`).
 
 `runs <k> <sig>… <n> <call>… <runs> <m> <run index>…` (model: `Model/EnvPool.lean` under the rules
 regenerated from callNative, `EnvPool.codeRules`)
@@ -146,7 +158,88 @@ def runsAnswer (natives : List (List ScriggoV.Gen.NativeEnv.SlotClass)) (body : 
     if os.isEmpty then "-" else ",".intercalate (os.map showSeen)
   "ok " ++ "|".intercalate per
 
+open ScriggoV.ImporterPolicy ScriggoV.Packages in
+def pInt : P Int
+  | t :: ts => t.toInt?.map (·, ts)
+  | [] => none
+
+open ScriggoV.ImporterPolicy ScriggoV.Packages in
+def pAnswer (pkgs : List NativePkg) : P Answer
+  | "n" :: ts => some ((none, none), ts)
+  | "p" :: ts => do let (i, ts) ← pNat ts; let k ← pkgs[i]?; pure ((some k, none), ts)
+  | "e" :: ts => do let (e, ts) ← pNat ts; pure ((none, some e), ts)
+  | "b" :: ts => do
+    let (i, ts) ← pNat ts; let k ← pkgs[i]?; let (e, ts) ← pNat ts; pure ((some k, some e), ts)
+  | _ => none
+
+def assocAnswer (tbl : List (String × ScriggoV.ImporterPolicy.Answer)) (path : String) :
+    ScriggoV.ImporterPolicy.Answer :=
+  match tbl.lookup path with
+  | some a => a
+  | none => (none, none)
+
+open ScriggoV.ImporterPolicy ScriggoV.Packages in
+def pNode (pkgs : List NativePkg) : Nat → P Tree
+  | 0, _ => none
+  | _ + 1, "P" :: ts => do
+    let (m, ts) ← pCounted (fun ts => do
+      let (path, ts) ← pTok ts
+      let (i, ts) ← pInt ts
+      if i < 0 then pure ((path, (none : Option NativePkg)), ts)
+      else do let k ← pkgs[i.toNat]?; pure ((path, some k), ts)) ts
+    pure (.packages m, ts)
+  | _ + 1, "U" :: ts => do
+    let (id, ts) ← pNat ts
+    let (tbl, ts) ← pCounted (fun ts => do
+      let (path, ts) ← pTok ts
+      let (a, ts) ← pAnswer pkgs ts
+      pure ((path, a), ts)) ts
+    pure (.custom id (assocAnswer tbl), ts)
+  | fuel + 1, "C" :: ts => do
+    let (is, ts) ← pCounted (pNode pkgs fuel) ts
+    pure (.combined is, ts)
+  | _, _ => none
+
+open ScriggoV.ImporterPolicy in
+def showAnswer (pkgs : List NativePkg) (a : Answer) : String :=
+  let idx (k : NativePkg) : String := toString (pkgs.findIdx (· == k))
+  match a with
+  | (none, none) => "n"
+  | (some k, none) => "p" ++ idx k
+  | (none, some e) => "e" ++ toString e
+  | (some k, some e) => "b" ++ idx k ++ "." ++ toString e
+
+def dedupS : List String → List String → List String
+  | [], acc => acc.reverse
+  | x :: xs, acc => if acc.contains x then dedupS xs acc else dedupS xs (x :: acc)
+
 def handle : List String → Option String
+  | "checkt" :: ts => do
+    let (template, ts) ← pBool ts
+    let (allowGo, ts) ← pBool ts
+    let (pkgs, ts) ← pCounted (fun ts => do
+      let (name, ts) ← pTok ts
+      let (ds, ts) ← pCounted pDecl ts
+      pure ((⟨name, ds⟩ : NativePkg), ts)) ts
+    let (tree, ts) ← (match ts with
+      | "N" :: ts => some ((none : Option ScriggoV.ImporterPolicy.Tree), ts)
+      | ts => do let (t, ts) ← pNode pkgs 8 ts; pure (some t, ts))
+    let (globals, ts) ← pCounted pGlobal ts
+    let (ops, ts) ← pCounted pOp ts
+    if !ts.isEmpty then none
+    else
+      let paths := dedupS (ScriggoV.ImporterPolicy.importPaths ops) []
+      let imports := match tree with
+        | none => "-"
+        | some t =>
+          if paths.isEmpty then "-"
+          else ",".intercalate (paths.map fun p =>
+            p ++ ":" ++ showAnswer pkgs (ScriggoV.ImporterPolicy.eval ScriggoV.ImporterPolicy.codeRule t p))
+      match ScriggoV.ImporterPolicy.checkTree ScriggoV.ImporterPolicy.codeRule tree globals allowGo template ops with
+      | .error e => pure ("err " ++ e.name ++ " imports=" ++ imports)
+      | .ok st =>
+        let ns := dedup (st.natives.reverse.map showNative) []
+        pure ("ok natives=" ++ (if ns.isEmpty then "-" else ",".intercalate ns) ++ " imports=" ++ imports)
   | "runs" :: ts => do
     let (natives, ts) ← pCounted pSig ts
     let (body, ts) ← pCounted pCall ts
